@@ -228,11 +228,11 @@ theorem lG8_cls_fin (s : CS) (hc : cls s = 27 ∨ cls s = 29) :
 /-! ### evaluating class, measure and configuration -/
 
 theorem lG8_cls30 (t : CS) (w : CWl) (hw : t.wl = some w) (hp : t.ro.phase = .progressing) (hr : t.ro.reason = .completed)
-    (hb : t.br = none) : cls t = 30 := by
+    (hb : t.br = none) (sub : Sub) (hs : t.ro.sub = some sub) : cls t = 30 := by
   unfold cls
   rw [hw]; dsimp only
   rw [hp, hr]; dsimp only
-  rw [hb]; rfl
+  rw [hb, hs]; rfl
 
 theorem lG8_cls29 (t : CS) (w : CWl) (sub : Sub) (hw : t.wl = some w) (hp : t.ro.phase = .progressing)
     (hr : t.ro.reason = .finalising) (hs : t.ro.sub = some sub) (hf : sub.finStep = .releaseWorkloadControl)
@@ -339,10 +339,12 @@ theorem lG8_step29 (s : CS) (h : liveInv s = true) (hc : cls s = 29) :
   have henv' : envWl { w with inProgressAnno := false } = { w with inProgressAnno := false } := by
     rw [lG8_envWl_anno, henv]
   have hasu : a.ro.succeeded = some true := by rw [hae]; rfl
+  have hasub : a.ro.sub = some c'.sub := by rw [hae]; rfl
   subst hba
-  obtain ⟨t1, t2, t3, t4, t5, t6, _, t8, t9⟩ := lG8_tail b _ hagone hawl henv'
+  obtain ⟨t1, t2, t3, t4, t5, t6, t7, t8, t9⟩ := lG8_tail b _ hagone hawl henv'
+  obtain ⟨sub', hsub', _⟩ := t7 c'.sub hasub
   have hcls : cls (roundTail b) = 30 :=
-    lG8_cls30 _ _ t1 (t3.trans haph) (t4.trans har) (t2.trans habr)
+    lG8_cls30 _ _ t1 (t3.trans haph) (t4.trans har) (t2.trans habr) sub' hsub'
   refine ⟨roundTail b, w, hround, ?_, hcls, lG8_mu30 _ _ t1 (t3.trans haph) (t4.trans har), ?_, hw, t1, t9.trans hasu⟩
   · rw [liveInv_iff]
     refine ⟨hft, ?_, by rw [hcls]; decide, Or.inr t8⟩
